@@ -16,7 +16,8 @@ import segno
 from segno import writers
 
 TOP = ['theories/Props/C10.v', 'theories/Props/C10_vector.v', 'theories/Tie/TieTables.v',
-       'theories/Tie/TieUtils.v', 'theories/Tie/TieUtilsIter.v']
+       'theories/Tie/TieUtils.v', 'theories/Tie/TieUtilsIter.v',
+       'theories/Tie/TieVecCommon.v', 'theories/Tie/TieVecTex.v', 'theories/Tie/TieVecPdf.v', 'theories/Tie/TieVecEps.v']
 RULE = ('symbols M1..M4, 1, 2, 7 (10, 40 in thorough) + Micro QR symbols with a completely light row + hand-made 5x5 matrices (direct writer calls) x integer '
         'scales {1,2,3,10} x fractional scales {0.5,1.5,2.25,3.3} x borders {0,1,4,default} x dark / light colour sets x SVG option sets (xmldecl, svgns, nl, '
         'omitsize, unit, svgversion, title/desc/id/class with markup characters, draw_transparent, per-module-type colours); every SVG / EPS / PDF / TeX output '
